@@ -1,10 +1,215 @@
 package main
 
 import (
+	"bytes"
+	"fmt"
+
 	"github.com/cosmos/cosmos-proto/internal/zzverif/enum"
 	"github.com/cosmos/cosmos-proto/internal/zzverif/hz"
+	"google.golang.org/protobuf/encoding/protojson"
+	"google.golang.org/protobuf/encoding/prototext"
+	"google.golang.org/protobuf/proto"
+	"google.golang.org/protobuf/reflect/protoreflect"
 )
 
+type roCall struct {
+	name string
+	f    func(g proto.Message)
+}
+
+func deepRange(m protoreflect.Message, depth int) {
+	if depth > 8 {
+		return
+	}
+	m.Range(func(fd protoreflect.FieldDescriptor, v protoreflect.Value) bool {
+		switch {
+		case fd.IsList():
+			l := v.List()
+			for i := 0; i < l.Len(); i++ {
+				e := l.Get(i)
+				if fd.Kind() == protoreflect.MessageKind {
+					deepRange(e.Message(), depth+1)
+				}
+			}
+		case fd.IsMap():
+			v.Map().Range(func(k protoreflect.MapKey, mv protoreflect.Value) bool {
+				if fd.MapValue().Kind() == protoreflect.MessageKind {
+					deepRange(mv.Message(), depth+1)
+				}
+				return true
+			})
+		case fd.Kind() == protoreflect.MessageKind:
+			deepRange(v.Message(), depth+1)
+		}
+		return true
+	})
+}
+
+var roCalls = []roCall{
+	{"Size", func(g proto.Message) { proto.Size(g) }},
+	{"Size(Deterministic)", func(g proto.Message) { proto.MarshalOptions{Deterministic: true}.Size(g) }},
+	{"Marshal", func(g proto.Message) { proto.Marshal(g) }},
+	{"Marshal(Deterministic)", func(g proto.Message) { proto.MarshalOptions{Deterministic: true}.Marshal(g) }},
+	{"MarshalAppend", func(g proto.Message) { proto.MarshalOptions{}.MarshalAppend(make([]byte, 2, 64), g) }},
+	{"Equal(self,clone)", func(g proto.Message) { c := proto.Clone(g); proto.Equal(g, c); proto.Equal(c, g) }},
+	{"Equal(self,empty)", func(g proto.Message) { proto.Equal(g, g.ProtoReflect().New().Interface()) }},
+	{"Clone", func(g proto.Message) { proto.Clone(g) }},
+	{"Merge-from", func(g proto.Message) { d := g.ProtoReflect().New().Interface(); proto.Merge(d, g) }},
+	{"Range(deep)", func(g proto.Message) { deepRange(g.ProtoReflect(), 0) }},
+	{"Get/Has(all fields)", func(g proto.Message) {
+		m := g.ProtoReflect()
+		fs := m.Descriptor().Fields()
+		for i := 0; i < fs.Len(); i++ {
+			fd := fs.Get(i)
+			m.Has(fd)
+			v := m.Get(fd)
+			switch {
+			case fd.IsList():
+				l := v.List()
+				l.Len()
+				l.IsValid()
+				if l.Len() > 0 {
+					l.Get(0)
+				}
+			case fd.IsMap():
+				mp := v.Map()
+				mp.Len()
+				mp.IsValid()
+				mp.Range(func(protoreflect.MapKey, protoreflect.Value) bool { return true })
+			case fd.Kind() == protoreflect.MessageKind:
+				v.Message().IsValid()
+			}
+		}
+	}},
+	{"WhichOneof(all)", func(g proto.Message) {
+		m := g.ProtoReflect()
+		os := m.Descriptor().Oneofs()
+		for i := 0; i < os.Len(); i++ {
+			m.WhichOneof(os.Get(i))
+		}
+	}},
+	{"GetUnknown", func(g proto.Message) { g.ProtoReflect().GetUnknown() }},
+	{"String", func(g proto.Message) {
+		if s, ok := g.(fmt.Stringer); ok {
+			_ = s.String()
+		}
+	}},
+	{"prototext.Marshal", func(g proto.Message) { prototext.Marshal(g) }},
+	{"protojson.Marshal", func(g proto.Message) { protojson.Marshal(g) }},
+	{"CheckInitialized", func(g proto.Message) { proto.CheckInitialized(g) }},
+}
+
 func evalC07(h *hz.H, sp *enum.Space, c enum.Case, b bounds, replayDet *bool, aux string) {
-	h.InternalError("C07 not built yet")
+	d, g, canon, ok := build(h, sp, c)
+	if !ok {
+		return
+	}
+	enc, err := proto.MarshalOptions{Deterministic: true}.Marshal(d) // reference encoding: the decoder's input
+	if err != nil {
+		h.InternalError("reference encoder failed: " + err.Error())
+		return
+	}
+	h.Eval(len(enc) > 0, hz.Hash("C07", string(sp.MD.FullName()), canon))
+	vc := mkCase(sp, c, b, true, "")
+
+	// (a) input immutability and (b) no sharing between the decoded message and its input
+	in := make([]byte, len(enc)) // exact-size buffer: any alias is into caller memory
+	copy(in, enc)
+	g2 := enum.NewGo(sp.MD)
+	var uerr error
+	if p := hz.Catch(func() { uerr = proto.Unmarshal(in, g2) }); p != nil || uerr != nil {
+		h.Violate(caseKey("C07", "unmarshal-failed", sp, c), fmt.Sprintf("Unmarshal of the reference encoding of %s failed: panic=%v err=%v", sp.Label(c), p, uerr), vc)
+		return
+	}
+	if !bytes.Equal(in, enc) {
+		h.Violate(caseKey("C07", "input-modified", sp, c), fmt.Sprintf("Unmarshal modified its input for %s: %x -> %x", sp.Label(c), clip(enc), clip(in)), vc)
+		return
+	}
+	snap := enum.Snapshot(g2)
+	for _, fill := range []byte{0xAA, 0x55} {
+		for i := range in {
+			in[i] = fill
+		}
+		if s2 := enum.Snapshot(g2); s2 != snap {
+			h.Violate(caseKey("C07", "decoded-message-aliases-input", sp, c), fmt.Sprintf("after Unmarshal, overwriting the input buffer changed the message %s:\n before %s\n after  %s", sp.Label(c), clips(snap), clips(s2)), vc)
+			return
+		}
+	}
+	// Merge-mode decode into a populated message must not alias either
+	g3 := proto.Clone(g)
+	copy(in, enc)
+	if p := hz.Catch(func() { uerr = proto.UnmarshalOptions{Merge: true}.Unmarshal(in, g3) }); p == nil && uerr == nil {
+		snap3 := enum.Snapshot(g3)
+		for i := range in {
+			in[i] = 0xAA
+		}
+		if s2 := enum.Snapshot(g3); s2 != snap3 {
+			h.Violate(caseKey("C07", "merged-message-aliases-input", sp, c), fmt.Sprintf("after Unmarshal(Merge), overwriting the input buffer changed the message %s", sp.Label(c)), vc)
+			return
+		}
+	}
+
+	// (c) output independence
+	for _, det := range []bool{false, true} {
+		var out []byte
+		if p := hz.Catch(func() { out, err = proto.MarshalOptions{Deterministic: det}.Marshal(g) }); p != nil || err != nil {
+			h.Violate(caseKey("C07", "marshal-failed", sp, c), fmt.Sprintf("Marshal(det=%v) of %s failed: panic=%v err=%v", det, sp.Label(c), p, err), vc)
+			return
+		}
+		saved := append([]byte(nil), out...)
+		flipped := enum.FlipBytes(g)
+		if !bytes.Equal(out, saved) {
+			h.Violate(caseKey("C07", "output-aliases-message", sp, c), fmt.Sprintf("mutating the bytes fields/unknown bytes of %s after Marshal(det=%v) changed the returned encoding", sp.Label(c), det), vc)
+			return
+		}
+		s1 := enum.Snapshot(g)
+		for i := range out {
+			out[i] = 0xAA
+		}
+		if s2 := enum.Snapshot(g); s2 != s1 {
+			h.Violate(caseKey("C07", "message-aliases-output", sp, c), fmt.Sprintf("overwriting the bytes returned by Marshal(det=%v) changed the message %s", det, sp.Label(c)), vc)
+			return
+		}
+		if enum.FlipBytes(g) != flipped { // restore the value
+			h.InternalError("FlipBytes not involutive")
+			return
+		}
+	}
+
+	// (d) read-only calls leave the struct untouched, for the value as built and for its
+	// "empty instead of nil containers" twin
+	if !h.Thorough() && replayDet == nil && len(c) >= 2 {
+		// quick tier: the 17-call battery runs on all <=1-slot values and on representative pairs only
+		for _, ch := range c {
+			if !sp.Slots[ch.S].Cands[ch.C].Rep {
+				return
+			}
+		}
+	}
+	for variant := 0; variant < 2; variant++ {
+		gv := g
+		vname := "as-built"
+		if variant == 1 {
+			// (proto.Clone would go through the code under test; rebuild independently instead)
+			gv = enum.BuildGo(d.ProtoReflect())
+			if enum.EmptyNotNil(gv) == 0 {
+				continue
+			}
+			vname = "empty-not-nil containers"
+		}
+		s0 := enum.Snapshot(gv)
+		for _, rc := range roCalls {
+			if p := hz.Catch(func() { rc.f(gv) }); p != nil {
+				// panics are other properties' business (C01/C04/C09/C10); only the state is judged here
+				_ = p
+			}
+			if s1 := enum.Snapshot(gv); s1 != s0 {
+				h.Violate(caseKey("C07", "read-only-call-changed-struct/"+rc.name, sp, c), fmt.Sprintf("%s changed the Go struct of %s (%s):\n before %s\n after  %s", rc.name, sp.Label(c), vname, clips(s0), clips(s1)), vc)
+				return
+			}
+		}
+	}
+	if h.WantSample() && len(c) > 0 {
+		h.Sample(map[string]interface{}{"value": sp.Label(c), "input_hex": fmt.Sprintf("%x", clip(enc)), "read_only_calls": len(roCalls)})
+	}
 }
